@@ -371,19 +371,59 @@ func (m *Machine) callAsm(fr *Frame, fn *ssa.Function, af *AsmFunc, args []Value
 			}
 		case "MOVL":
 			st.write(in, in.args[1], st.read(in, in.args[0], 32))
-		case "SHLQ":
-			d := st.read(in, in.args[1], 64)
-			r := tf.Shl(d, st.read(in, in.args[0], 64))
+		case "SHLQ", "SHLL", "SHRQ", "SHRL", "SARQ", "SARL":
+			w := uint8(64)
+			if in.op[3] == 'L' {
+				w = 32
+			}
+			d := st.read(in, in.args[1], w)
+			cnt := tf.BvAnd(st.read(in, in.args[0], w), tf.Const(w, uint64(w-1)))
+			var r *Term
+			switch in.op[:3] {
+			case "SHL":
+				r = tf.Shl(d, cnt)
+			case "SHR":
+				r = tf.Lshr(d, cnt)
+			default:
+				r = tf.Ashr(d, cnt)
+			}
+			st.write(in, in.args[1], r)
+			st.setFlagsLogic(r) // (CF/OF after a shift are not used by the routines; they are cleared here)
+		case "ORQ", "ORL", "ANDQ", "ANDL":
+			w := uint8(64)
+			if in.op[len(in.op)-1] == 'L' {
+				w = 32
+			}
+			a, b := st.read(in, in.args[1], w), st.read(in, in.args[0], w)
+			var r *Term
+			if in.op[0] == 'O' {
+				r = tf.BvOr(a, b)
+			} else {
+				r = tf.BvAnd(a, b)
+			}
 			st.write(in, in.args[1], r)
 			st.setFlagsLogic(r)
-		case "ORQ":
-			r := tf.BvOr(st.read(in, in.args[1], 64), st.read(in, in.args[0], 64))
-			st.write(in, in.args[1], r)
-			st.setFlagsLogic(r)
+		case "NOTQ", "NOTL":
+			w := uint8(64)
+			if in.op[3] == 'L' {
+				w = 32
+			}
+			st.write(in, in.args[0], tf.BvNot(st.read(in, in.args[0], w)))
+		case "NEGQ", "NEGL":
+			w := uint8(64)
+			if in.op[3] == 'L' {
+				w = 32
+			}
+			r := st.setFlagsSub(tf.Const(w, 0), st.read(in, in.args[0], w))
+			st.write(in, in.args[0], r)
 		case "CMPQ":
 			st.setFlagsSub(st.read(in, in.args[0], 64), st.read(in, in.args[1], 64))
+		case "CMPL":
+			st.setFlagsSub(st.read(in, in.args[0], 32), st.read(in, in.args[1], 32))
 		case "TESTQ":
 			st.setFlagsLogic(tf.BvAnd(st.read(in, in.args[0], 64), st.read(in, in.args[1], 64)))
+		case "TESTL":
+			st.setFlagsLogic(tf.BvAnd(st.read(in, in.args[0], 32), st.read(in, in.args[1], 32)))
 		case "XORB", "XORW", "XORL", "XORQ":
 			w := map[string]uint8{"XORB": 8, "XORW": 16, "XORL": 32, "XORQ": 64}[in.op]
 			r := tf.BvXor(st.read(in, in.args[1], w), st.read(in, in.args[0], w))
@@ -412,6 +452,22 @@ func (m *Machine) callAsm(fr *Frame, fn *ssa.Function, af *AsmFunc, args []Value
 		case "SUBQ":
 			r := st.setFlagsSub(st.read(in, in.args[1], 64), st.read(in, in.args[0], 64))
 			st.write(in, in.args[1], r)
+		case "ADDL":
+			r := st.setFlagsAdd(st.read(in, in.args[1], 32), st.read(in, in.args[0], 32))
+			st.write(in, in.args[1], r)
+		case "SUBL":
+			r := st.setFlagsSub(st.read(in, in.args[1], 32), st.read(in, in.args[0], 32))
+			st.write(in, in.args[1], r)
+		case "INCL":
+			cf := st.cf
+			r := st.setFlagsAdd(st.read(in, in.args[0], 32), tf.Const(32, 1))
+			st.cf = cf
+			st.write(in, in.args[0], r)
+		case "DECL":
+			cf := st.cf
+			r := st.setFlagsSub(st.read(in, in.args[0], 32), tf.Const(32, 1))
+			st.cf = cf
+			st.write(in, in.args[0], r)
 		case "ROLL", "RORL", "ROLQ", "RORQ", "ROLW", "RORW", "ROLB", "RORB":
 			k, ok := evalAsmConst(strings.TrimPrefix(in.args[0], "$"))
 			if !ok || !strings.HasPrefix(in.args[0], "$") {
@@ -466,6 +522,14 @@ func (m *Machine) callAsm(fr *Frame, fn *ssa.Function, af *AsmFunc, args []Value
 			jump(tf.Eq(st.sf, st.of))
 		case "JG", "JGT":
 			jump(tf.And(tf.Not(st.zf), tf.Eq(st.sf, st.of)))
+		case "JA", "JHI":
+			jump(tf.And(tf.Not(st.cf), tf.Not(st.zf)))
+		case "JBE", "JLS":
+			jump(tf.Or(st.cf, st.zf))
+		case "JS", "JMI":
+			jump(st.sf)
+		case "JNS", "JPL":
+			jump(tf.Not(st.sf))
 		case "JAE", "JCC":
 			jump(tf.Not(st.cf))
 		case "JB", "JCS":
